@@ -583,13 +583,21 @@ class FnCheck:
         return r
 
     # HELD(G, B): the guard acquired by G is live at every B
-    def held(self, G, B, assume=(), cut=()):
+    def held(self, G, B, assume=(), cut=(), weaker=None):
+        """`weaker`: an acquisition pattern of the same lock in a weaker mode (e.g. read instead of write).
+        If G matches nothing but `weaker` does while B is present, the obligation is violated (the
+        region is protected by the weaker mode only) rather than inconclusive."""
         if self.fn is None:
             return self.missing()
         fn = self.fn
         # guard locals and their aliases
         acq_blocks = [b for b in fn.blocks.values() if not b.cleanup and G.match_block(fn, b)]
         if not acq_blocks:
+            if weaker is not None and self.count(weaker) > 0 and self.count(B) > 0:
+                r = self.reachable(B, assume=assume, cut=cut)
+                if r.verdict == "holds":
+                    return Result("violated", "B is reachable but %s is never acquired in %s; only the weaker %s is" % (G.name, self.name, weaker.name),
+                                  queries=r.queries, seconds=r.seconds, sample={"fn": self.name, "kind": "HELD", "guard": G.name, "B": B.name, "weaker_found": weaker.name})
             return Result("inconclusive", "guard acquisition %s matched nothing in %s" % (G.name, self.name))
         guards = set()
         for b in acq_blocks:
@@ -668,6 +676,9 @@ class FnCheck:
         g = Graph(self.fn, [B])
         edges = _filtered_edges(g, assume, cut)
         ok, msg, q, s = self._witness(g, edges, B.name, B)
+        if not ok and g.ev_nodes[B.name]:
+            # the pattern exists but no path reaches it under the stated arm restrictions (z3: unsat)
+            return Result("violated", msg, queries=q, seconds=s, sample={"fn": self.name, "kind": "REACHABLE", "B": B.name})
         return Result("holds" if ok else "inconclusive", msg or "sat: reachable", queries=q, seconds=s,
                       sample={"fn": self.name, "kind": "REACHABLE", "B": B.name})
 
